@@ -917,6 +917,7 @@ class C33(Spec):
     title = 'secure random functions stay in range and are uniform'
     technique = ('deterministic simulation; (a) seeded runs checked against range/shape invariants, (b) exhaustive '
                  'enumeration of the secret random bits through a random_bits seam: exact outcome masses vs 1/N')
+    per_run_timeout = 400      # one case = a whole tree of executions (bit enumeration)
     quick = {'runs': 1500, 'wall': 85}
     thorough = {'runs': 3000000, 'wall': 900}
     level_text = ('(a) seeded search for range/shape violations; (b) for small parameters an exhaustive sweep of the '
